@@ -109,9 +109,10 @@ def keyState (cur orig : Bytes) : String :=
 def findSk (st : St) (id : Nat) : Option SkEnt := st.sks.find? (·.id == id)
 def putSk (st : St) (e : SkEnt) : St := { st with sks := e :: st.sks.filter (·.id != e.id) }
 
-/-- number of distinct byte strings in a list. -/
-def countDistinct (l : List Bytes) : Nat :=
-  (l.foldl (fun (s : Std.HashSet Bytes) c => s.insert c) {}).size
+/-- number of distinct elements of `(List.range total).map f`, computed one element at a time (nothing but the
+packed results is kept alive: 10⁶ ciphertexts as `List UInt8` would be gigabytes). -/
+def countDistinctRange (total : Nat) (f : Nat → Bytes) : Nat :=
+  (Nat.fold total (fun i _ (s : Std.HashSet ByteArray) => s.insert (f i).toByteArray) {}).size
 
 def showParams (p : Params) : String :=
   s!"N={p.N} R={p.R} P={p.P}"
@@ -130,13 +131,16 @@ def step (st : St) (line : String) : St × String :=
   | "encpar" :: r =>
     -- g goroutines × per concurrent encryptions of one plaintext under one key: the model's answer is
     -- `encryptMany` over the nonces drawn (toy nonces st.nonce … st.nonce+total-1, pairwise distinct), whose
-    -- ciphertexts are counted here, not assumed: `C17_fresh_many` says the count is `total` for every schedule.
+    -- ciphertexts are computed and counted here, not assumed: `C17_fresh_many` says the count is `total` for every schedule.
     match (kv r "k").bind keyOf, natKV r "len", natKV r "pat", natKV r "g", natKV r "per" with
     | some k, some len, some pat, some g, some per =>
       if g < 1 || g > 64 || per < 1 || per > 100000 || g * per > 1000000 || len > 4096 then (st, "bad-op") else
       let total := g * per
-      let cts := encryptMany A k (plain len pat) ((List.range total).map fun i => Toy.nonceOfId (st.nonce + i))
-      ({ st with nonce := st.nonce + total }, s!"ok n={cts.length} distinct={countDistinct cts}")
+      let pt := plain len pat
+      -- element i of `encryptMany A k pt ((List.range total).map fun i => Toy.nonceOfId (st.nonce + i))`
+      -- (`Crypto.encryptMany_eq_map`)
+      let ct := fun i => encryptWith A (Toy.nonceOfId (st.nonce + i)) k pt
+      ({ st with nonce := st.nonce + total }, s!"ok n={total} distinct={countDistinctRange total ct}")
     | _, _, _, _, _ => (st, "bad-op")
   | "dec" :: r =>
     match (kv r "k").bind keyOf, (natKV r "ct").bind (st.cts[·]?) with
